@@ -16,7 +16,7 @@
 #define NMAX 3
 #endif
 struct def { int32_t n; uint32_t t[3]; int32_t gi; int32_t gn; uint32_t gt[3]; };   /* gi: index of the member that is a nested group's count field, -1 none */
-uint32_t cx_an, cx_at[3], cx_bn, cx_bt[3], cx_keyA, cx_keyB; int32_t cx_agi, cx_agn, cx_bgi, cx_bgn; uint32_t cx_agt[3], cx_bgt[3];
+uint32_t cx_an, cx_at[3], cx_bn, cx_bt[3], cx_keyA, cx_keyB, cx_cn, cx_ct[3], cx_keyC; int32_t cx_agi, cx_agn, cx_bgi, cx_bgn; uint32_t cx_agt[3], cx_bgt[3];
 static uint32_t fold(const uint32_t *t, int n) { uint32_t r = 0; for (int i = 0; i < 3; i++) if (i < n) r = vf_rothash(r, t[i]); return r; }
 static uint32_t key(const struct def *d)
 {
@@ -44,6 +44,22 @@ static int same(const struct def *a, const struct def *b)
   for (int i = 0; i < 3; i++) if (a->t[i] != b->t[i] || a->gt[i] != b->gt[i]) return 0;
   return 1;
 }
+#ifdef CHAIN
+/* search for a CHAIN: definitions A != B with the same key h and a third definition C with key h + 2 (h + 1 free) - the
+   configuration in which the key a colliding definition finally receives depends on how f8c walks the keys already in use.
+   The assertion is the search goal; the verdict is the native replay of the three-definition schema (order A, C, B). */
+int main(void)
+{
+  struct def a = nd_def(), b = nd_def(), c = nd_def();
+  VF_ASSUME(a.n == 2 && b.n == 2 && c.n == 2);
+  cx_an = a.n; cx_bn = b.n; cx_cn = c.n; cx_agi = cx_bgi = -1;
+  for (int i = 0; i < 3; i++) { cx_at[i] = a.t[i]; cx_bt[i] = b.t[i]; cx_ct[i] = c.t[i]; }
+  uint32_t ka = key(&a), kb = key(&b), kc = key(&c); cx_keyA = ka; cx_keyB = kb; cx_keyC = kc;
+  VF_ASSERT(!(ka == kb && !same(&a, &b) && kc == ka + 2 && !same(&a, &c) && !same(&b, &c)), "C14: chained sharing keys (two colliding definitions and a third one two keys above)");
+  VF_REACH();
+  return 0;
+}
+#else
 int main(void)
 {
   struct def a = nd_def(), b = nd_def();
@@ -63,3 +79,4 @@ int main(void)
   if (same(&a, &b)) VF_REACH(); else VF_REACH();
   return 0;
 }
+#endif
